@@ -34,7 +34,7 @@ SPEC = {
     "assumptions": ["floats read as reals; NaN handled as a separate flag with IEEE comparison semantics", "bin edges increasing"],
 }
 
-JOB_TIMEOUT = {"quick": 900, "thorough": 3000}
+JOB_TIMEOUT = {"quick": 400, "thorough": 3000}
 
 
 def _rename(res):
